@@ -1,4 +1,5 @@
 import HranoModel.Props.C12
+import HranoModel.Lemmas.Leaf
 /-!
 C07 — all reports agree on the same quantities.
 
@@ -6,8 +7,8 @@ Property theorems only.  Each theorem relates two *different* functions of the m
 the same book and days; the shared vocabulary is `Spec.posOf / negOf / sumOf` over the contributions
 (`quantity × resolved element, or the food itself`).  Figures are exact rationals here; the C07 check
 evaluates the same relations between the real program's outputs.
-Still checked only by the correspondence (no theorem yet): quantity = balance leaf amounts (needs the tree
-lemma of C03), stats' day distances.
+`quantity_eq_balance_leaf`: under the no-prefix condition the balance tree holds at a food's path exactly the
+quantity listed for the food.  Still checked only by the correspondence: stats' day distances (float division in Go).
 -/
 namespace Hrano.C07
 open Hrano Hrano.App Hrano.Spec Hrano.Report Hrano.C12
@@ -116,6 +117,17 @@ theorem bal_single_total_eq_period_total (db : Book) (x : Bytes) (days : List Lo
   | cons e es ih =>
     simp only [List.map_cons, List.flatten_cons, total_append, sumOf_append, ih]
     rw [single_food_total]
+
+/-- **quantities per food = the balance leaf amounts**: when no logged food name is a path-prefix of another, the
+    amount the balance tree holds at the path of a food is the quantity `report quantity` lists for it -/
+theorem quantity_eq_balance_leaf (days : List LogDay) (e : Element) (he : e ∈ allElements days)
+    (hpf : PrefixFree ((allElements days).map pathOf)) :
+    totalAt (Tree.build (allElements days)) (pathOf e) = Elements.valueAt (quantityAcc days) e.name := by
+  have hb := build_spec (allElements days) [] WFList.nil
+  have key : Elements.valueAt (quantityAcc days) e.name = sumOf e.name (allElements days) := by
+    have := mergeDay_value (allElements days) e.name
+    simpa [quantityAcc, mergeDay] using this
+  rw [Tree.build, hb.2 (pathOf e), totalAt_nil, Rat.zero_add, prefixSum_eq_sumOf (allElements days) hpf e he _ (fun x h => h), key]
 
 /-- **quantities per food = sums of the CSV log rows** (the CSV log lists each day's merged foods) -/
 theorem quantity_eq_sum_csv_rows (days : List LogDay) (n : Bytes) :
